@@ -26,9 +26,10 @@ func propC20() *simkit.Property {
 }
 
 type regOut struct {
-	res     string // ok | gone | removed | err
-	excused bool   // failure may be due to an injected error / non-read-write shard
-	bad     string
+	res        string // ok | gone | removed | err
+	excused    bool   // failure may be due to an injected error / non-read-write shard
+	duringTomb bool   // (reads) a tombstone broadcast of the object was in flight at some moment of the read
+	bad        string
 }
 
 const (
@@ -88,7 +89,7 @@ func regStep(state, in, out any) (bool, any) {
 		case "get", "head":
 			switch o.res {
 			case "ok":
-				if s == stPresent {
+				if s == stPresent || s == stTomb && o.duringTomb {
 					next |= s
 				}
 			case "gone", "removed":
@@ -168,6 +169,8 @@ func runC20(r *simkit.R) {
 
 	byTask := map[*simkit.Task]*enOp{}
 	inFlight := map[*enOp]bool{}
+	unindexed := map[int]bool{} // object -> a put of it was acknowledged by a shard in degraded read-write mode
+	tainted := map[int]bool{}   // object -> a mutation of it FAILED after the simulator failed one of its shard calls / met a non-read-write shard
 	var lin []simkit.LinOp
 	next := 0
 	disturbed := false // a mode switch or an injected error happened
@@ -201,6 +204,13 @@ func runC20(r *simkit.R) {
 			}
 			return op.kind, func(t *simkit.Task) {
 				byTask[t] = op
+				if op.kind == "get" || op.kind == "head" {
+					for o := range inFlight {
+						if o.kind == "tomb" && target(o) == target(op) {
+							op.tombSeen = true
+						}
+					}
+				}
 				inFlight[op] = true
 				if notRW() {
 					op.flag2 = true
@@ -237,6 +247,13 @@ func runC20(r *simkit.R) {
 			}
 			delete(inFlight, op)
 			r.Op("%s -> %v", op, errS(op.err))
+			if op.kind == "tomb" {
+				for o := range inFlight {
+					if (o.kind == "get" || o.kind == "head") && target(o) == target(op) {
+						o.tombSeen = true
+					}
+				}
+			}
 			if op.kind == "mode" {
 				if op.err == nil {
 					disturbed = true
@@ -270,6 +287,12 @@ func runC20(r *simkit.R) {
 					for _, h := range w.holders(op.id) {
 						if w.modeOf(h) == mode.Degraded {
 							out.bad = "its blob sits on a shard that is in degraded read-write mode (stored without metadata)"
+						} else if w.modeOf(h).NoMetabase() && unindexed[op.id] {
+							// acknowledged because the blob written in degraded read-write mode is there
+							out.bad = "its blob sits on a shard that is in degraded read-write mode (stored without metadata)"
+						}
+						if w.modeOf(h) == mode.Degraded {
+							unindexed[op.id] = true
 						}
 					}
 				}
@@ -300,6 +323,34 @@ func runC20(r *simkit.R) {
 			}
 			if (op.kind == "get" || op.kind == "head") && disturbed {
 				r.Nontrivial()
+			}
+			x := target(op)
+			switch op.kind {
+			case "get", "head":
+				// a tombstone broadcast that overlaps the read has reached some shards and not others:
+				// the statement does not say which answer such a read gets
+				if op.tombSeen {
+					out.duringTomb = true
+				}
+				for o := range inFlight {
+					if o.kind == "tomb" && target(o) == x {
+						out.duringTomb = true
+					}
+				}
+			default:
+				// a mutation that FAILED after one of its shard calls was failed (or a shard was not
+				// read-write) may have taken effect on some shards only; from then on the shards
+				// disagree about the object and no single register describes it: not judged any more
+				if op.err != nil && !isRemoved(op.err) && (op.faulted || op.flag2) {
+					if !tainted[x] {
+						r.Probe("object not judged any more: a mutation of it failed half-way")
+					}
+					tainted[x] = true
+				}
+			}
+			if tainted[x] {
+				w.r.Logf("    [%s key=o%d out=%+v (not judged)]", op.kind, x, out)
+				return
 			}
 			lin = append(lin, simkit.LinOp{Key: fmt.Sprintf("o%d", target(op)), In: op.kind, Out: out, Call: t.Call, Ret: t.Ret})
 			w.r.Logf("    [%s key=o%d out=%+v]", op.kind, target(op), out)
@@ -499,6 +550,7 @@ func runC08(r *simkit.R) {
 	armed := map[int]uint64{}     // object -> stamp from which reads must succeed
 	armedBy := map[int]int{}      // object -> lock spec id
 	partial := map[int]bool{}     // object -> its lock did not reach every shard holding it
+	partialAny := map[int]bool{}  // object -> its lock did not reach some shard (not holding the object)
 	rolledBack := map[int]bool{}  // object -> a tombstone of it was deleted again by a broadcast rollback
 	tombMaybe := map[int]bool{}   // object -> a tombstone visit of it took effect although it was reported as failed (injected)
 	dupLock := map[int]bool{}     // object -> its lock was acknowledged while another broadcast of the same lock was in flight
@@ -539,6 +591,8 @@ func runC08(r *simkit.R) {
 			diag = "the lock was acknowledged although a shard holding the object did not store it"
 		} else if dupLock[x] {
 			diag = "the lock was acknowledged because a shard already held it while another broadcast of the same lock was still in flight"
+		} else if partialAny[x] && !rolledBack[x] {
+			diag = "the lock was acknowledged although a shard did not store it"
 		}
 		r.Failf("lock", fmt.Sprintf("locked object is not retrievable: %s [%s]", what, diag), "o%d is protected by lock o%d (accepted by the engine, expires after epoch %d, current epoch %d) but at %s %s: %v", x, armedBy[x], w.u.Specs[armedBy[x]].Exp, w.ep.CurrentEpoch(), where, what, err)
 	}
@@ -647,6 +701,10 @@ func runC08(r *simkit.R) {
 						if hasX && !hasL {
 							partial[x] = true
 							r.Probe("lock acknowledged although a shard holding the object did not store it")
+						} else if !hasL {
+							// (that shard will accept a tombstone of the object later)
+							partialAny[x] = true
+							r.Probe("lock acknowledged although some shard did not store it")
 						}
 					}
 					history = append(history, fmt.Sprintf("lock-ok(o%d)", x))
